@@ -22,6 +22,7 @@ PROFILE = {
     "max_delay_ticks": 32,
     "multi_call": (1, 2),
     "offgrid_delays": 0.15,
+    "handler_time": 0.3,
 }
 
 
